@@ -85,4 +85,77 @@ theorem sum_eq_nPositive (ls : List Rat) (h : ∀ v ∈ ls, v = 0 ∨ v = 1) : l
       simp [this, ih']
     · simp [ih']; ring
 
+/-! ## the lifted body of `_validate_and_reformat_input` (Generated/ValidateSrc.lean, run by `runChecks`) -/
+
+section Lifted
+open Generated.ValidateSrc
+
+/-- no check of an ordered list fires iff every condition is false -/
+theorem firstFailure_eq_none_iff (f : Atom → Bool) (cs : List Check) :
+    firstFailure f cs = none ↔ ∀ c ∈ cs, evalCond f c.cond = false := by
+  induction cs with
+  | nil => simp [firstFailure]
+  | cons c cs ih =>
+    by_cases h : evalCond f c.cond = true
+    · simp [firstFailure, h]
+    · have h' : evalCond f c.cond = false := by simpa using h
+      simp [firstFailure, h', ih]
+
+/-- a list of checks accepts a descriptor iff none of its conditions holds on it (for ANY list of checks) -/
+theorem runChecks_ok_iff (cs : List Check) (ey es eb : Bool) (d : MitData) :
+    runChecks cs ey es eb d = .ok ↔ ∀ c ∈ cs, evalCond (evalAtom ey es eb d) c.cond = false := by
+  unfold runChecks
+  rw [← firstFailure_eq_none_iff]
+  cases h : firstFailure (evalAtom ey es eb d) cs with
+  | none => simp
+  | some e => cases e <;> simp [excOutcome]
+
+/-- the failure a list of checks reports is the kind of one of its checks whose condition holds, and no earlier check
+    of the list fires (first-match semantics) -/
+theorem firstFailure_eq_some (f : Atom → Bool) (cs : List Check) (e : Exc) (h : firstFailure f cs = some e) :
+    ∃ pre c post, cs = pre ++ c :: post ∧ c.exc = e ∧ evalCond f c.cond = true ∧ ∀ p ∈ pre, evalCond f p.cond = false := by
+  induction cs with
+  | nil => simp [firstFailure] at h
+  | cons c cs ih =>
+    by_cases hc : evalCond f c.cond = true
+    · simp only [firstFailure, hc, ite_true, Option.some.injEq] at h
+      exact ⟨[], c, cs, rfl, h, hc, by simp⟩
+    · have hc' : evalCond f c.cond = false := by simpa using hc
+      simp only [firstFailure, hc', Bool.false_eq_true, ite_false] at h
+      obtain ⟨pre, c', post, rfl, he, hf, hp⟩ := ih h
+      refine ⟨c :: pre, c', post, rfl, he, hf, ?_⟩
+      intro p hp'
+      rcases List.mem_cons.mp hp' with rfl | hp'
+      · exact hc'
+      · exact hp p hp'
+
+/-- if every check of a list raises ValueError, the list never reports anything else -/
+theorem runChecks_kind (cs : List Check) (hk : ∀ c ∈ cs, c.exc = .valueError) (ey es eb : Bool) (d : MitData) :
+    runChecks cs ey es eb d = .ok ∨ runChecks cs ey es eb d = .valueError := by
+  unfold runChecks
+  cases h : firstFailure (evalAtom ey es eb d) cs with
+  | none => exact Or.inl rfl
+  | some e =>
+    obtain ⟨pre, c, post, rfl, he, _, _⟩ := firstFailure_eq_some _ _ _ h
+    have := hk c (by simp)
+    rw [he] at this
+    subst this
+    exact Or.inr rfl
+
+/-- the lifted label set is {0, 1}: the lifted membership test is the hand-written `isBinary` -/
+theorem labelsIn_labelSet (y : List Rat) : labelsIn labelSet y = isBinary y := by
+  simp [labelsIn, labelSet, isBinary]
+
+/-- BRIDGE: the check list lifted from the working tree, run with first-match semantics, is the hand-written model of
+    `_validate_and_reformat_input` — for every value of the three flags and every descriptor.  A source edit that drops a
+    check the descriptor can see, changes a condition (`is None` / `is not None`, the label set, `expect_y`), or gives two
+    checks of different kinds another order changes `checks` and breaks this proof. -/
+theorem validateSrc_eq_validateWith (ey es eb : Bool) (d : MitData) :
+    validateSrc ey es eb d = validateWith ey es eb d := by
+  rcases d with ⟨n, y, sf, cf⟩
+  simp only [validateSrc, runChecks, checks, firstFailure, evalCond, evalAtom, labelsIn_labelSet, validateWith]
+  cases y <;> cases sf <;> cases cf <;> cases ey <;> cases es <;> cases eb <;> simp [excOutcome] <;> split_ifs <;> simp_all
+
+end Lifted
+
 end Validation
